@@ -138,6 +138,91 @@ class Markup:
         return False
 
 
+def response_paths(app):
+    """The two ways through application(): statements are followed in order, an `if` (or conditional expression) on the variable that
+    holds the X-Requested-With test forks, plain assignments of names are substituted into later uses.  -> {True/False: (list of
+    start_response Call nodes as seen on that path, returned expression, line)} or None when the function has another shape."""
+    import copy
+    from ..match import _Subst
+    ajax = None
+    for n in ast.walk(app):
+        if isinstance(n, ast.Assign) and len(n.targets) == 1 and isinstance(n.targets[0], ast.Name) and 'HTTP_X_REQUESTED_WITH' in src(n.value):
+            ajax = n.targets[0].id
+    if ajax is None:
+        return None
+
+    def mode_of(test):
+        if isinstance(test, ast.Name) and test.id == ajax:
+            return True
+        if isinstance(test, ast.UnaryOp) and isinstance(test.op, ast.Not) and isinstance(test.operand, ast.Name) and test.operand.id == ajax:
+            return False
+        return None
+
+    class Resolve(ast.NodeTransformer):
+        def __init__(self, mode):
+            self.mode = mode
+
+        def visit_IfExp(self, node):
+            self.generic_visit(node)
+            m = mode_of(node.test)
+            if m is None or self.mode is None:
+                return node
+            return node.body if m == self.mode else node.orelse
+    out = {}
+
+    class Unsupported_(Exception):
+        pass
+
+    def run(stmts, env, mode, calls):
+        """-> True when the path has returned"""
+        for st in stmts:
+            if isinstance(st, ast.If) and mode_of(st.test) is not None:
+                m = mode_of(st.test)
+                for branch_mode, body in ((m, st.body), (not m, st.orelse)):
+                    if mode is not None and mode != branch_mode:
+                        continue
+                    e2, c2 = dict(env), list(calls)
+                    if not run(body, e2, branch_mode, c2):
+                        # falls through: continue with the rest of this block in that mode
+                        rest = stmts[stmts.index(st) + 1:]
+                        if not run(rest, e2, branch_mode, c2):
+                            raise Unsupported_('a path ends without return')
+                return True
+            if isinstance(st, ast.Return):
+                if mode is None:
+                    raise Unsupported_('return before the mode is decided')
+                v = Resolve(mode).visit(_Subst(dict(env)).visit(copy.deepcopy(st.value))) if st.value is not None else None
+                if mode in out:
+                    raise Unsupported_('two returns for one mode')
+                out[mode] = (calls, ast.fix_missing_locations(v) if v is not None else None, st.lineno)
+                return True
+            has_resp = any(isinstance(x, ast.Call) and src(x.func) == 'start_response' for x in ast.walk(st))
+            has_ret = any(isinstance(x, ast.Return) for x in ast.walk(st))
+            if isinstance(st, ast.Expr) and isinstance(st.value, ast.Call) and src(st.value.func) == 'start_response':
+                c = Resolve(mode).visit(_Subst(dict(env)).visit(copy.deepcopy(st.value)))
+                c = ast.copy_location(c, st.value)
+                calls.append(ast.fix_missing_locations(c))
+                continue
+            if has_resp or has_ret:
+                raise Unsupported_('response inside %s' % type(st).__name__)
+            if isinstance(st, ast.Assign) and len(st.targets) == 1 and isinstance(st.targets[0], ast.Name):
+                env[st.targets[0].id] = Resolve(mode).visit(_Subst(dict(env)).visit(copy.deepcopy(st.value)))
+                continue
+            # anything else: names it binds are no longer known expressions
+            for x in ast.walk(st):
+                if isinstance(x, ast.Name) and isinstance(x.ctx, ast.Store):
+                    env.pop(x.id, None)
+        return False
+    try:
+        env = {}
+        if not run(strip_doc(app.body), env, None, []):
+            return None
+    except Unsupported_:
+        return None
+    # values assigned before the fork are substituted too; names such as number/results stay what they are when reassigned in a block
+    return out if set(out) == {True, False} else None
+
+
 def check(tier):
     rep = Report('C18', tier, level='other',
                  rule_text='taint rule for safe markup over the WSGI script, literal-status rule, query-access rule, listing shape, template '
@@ -161,11 +246,13 @@ def check(tier):
     ok = M.fn_safe('format')
     rep.check(ok, 'C18.escape', FILE, 'format', 'return values of format()', (M.why or (M.funcs['format'].lineno, ''))[0],
               'format() can return text that is not escaped markup: %s' % ((M.why or (0, ''))[1]))
-    rets = [n for n in ast.walk(app) if isinstance(n, ast.Return) and n.value is not None]
-    html_rets = [r for r in rets if 'json.dumps' not in src(r.value)]
-    json_rets = [r for r in rets if 'json.dumps' in src(r.value)]
-    rep.check(len(html_rets) == 1 and len(json_rets) == 1, 'C18.status', FILE, 'application', 'return statements', app.lineno,
-              'application() no longer has exactly one HTML and one JSON response')
+    paths = response_paths(app)
+    if paths is None:
+        raise AnalysisError('%s: application() does not end in one HTML and one JSON response selected by the X-Requested-With test' % FILE)
+    html_rets = [ast.Return(value=paths[False][1], lineno=paths[False][2], col_offset=0)]
+    json_rets = [ast.Return(value=paths[True][1], lineno=paths[True][2], col_offset=0)]
+    rep.check('json.dumps' in src(json_rets[0].value) and 'json.dumps' not in src(html_rets[0].value), 'C18.status', FILE, 'application', 'return statements',
+              app.lineno, 'application() no longer has exactly one HTML and one JSON response')
     for r in html_rets:
         M.why = None
         good = M.safe(r.value, app)
@@ -181,24 +268,24 @@ def check(tier):
                           'html.escape() is applied to %s, which need not be a string: AttributeError gives a server error' % a, what=a)
     # ---- status / headers / no raise
     calls = [n for n in ast.walk(tree) if isinstance(n, ast.Call) and src(n.func) == 'start_response']
-    rep.check(len(calls) == 2, 'C18.status', FILE, 'application', 'start_response calls', app.lineno, 'expected one start_response() per mode, found %d' % len(calls))
-    for c in calls:
-        rep.check(c.args and isinstance(c.args[0], ast.Constant) and c.args[0].value == '200 OK', 'C18.status', FILE, 'application', src(c)[:100], c.lineno,
-                  'status is not the literal 200 OK')
+    rep.check(1 <= len(calls) <= 2, 'C18.status', FILE, 'application', 'start_response calls', app.lineno,
+              'expected one start_response() per mode (or one for both), found %d' % len(calls))
+    for mode, want in ((True, 'application/json'), (False, 'text/html')):
+        pc = paths[mode][0]
+        rep.check(len(pc) == 1, 'C18.status', FILE, 'application', 'start_response calls in %s mode' % ('AJAX' if mode else 'HTML'), paths[mode][2],
+                  'start_response() is called %d times before the %s response is returned' % (len(pc), 'JSON' if mode else 'HTML'))
+        for c in pc:
+            rep.check(c.args and isinstance(c.args[0], ast.Constant) and c.args[0].value == '200 OK', 'C18.status', FILE, 'application', src(c)[:100], c.lineno,
+                      'status is not the literal 200 OK')
+            rep.check(want in src(c), 'C18.status', FILE, 'application', src(c)[:120], c.lineno,
+                      '%s mode does not announce %s before returning its document' % ('AJAX' if mode else 'HTML', want))
     for fnname in ('application', 'format', 'info'):
         for n in ast.walk(M.funcs[fnname]):
             if isinstance(n, ast.Raise):
                 rep.fail('C18.status', FILE, fnname, src(n), n.lineno, 'explicit raise on the request path gives a server error')
-    if json_rets and html_rets and len(calls) == 2:
-        first = min(calls, key=lambda c: c.lineno)
-        second = max(calls, key=lambda c: c.lineno)
-        rep.check('application/json' in src(first) and first.lineno < json_rets[0].lineno, 'C18.status', FILE, 'application', src(first)[:120], first.lineno,
-                  'AJAX mode does not announce application/json before returning the JSON document')
-        rep.check('text/html' in src(second) and second.lineno < html_rets[0].lineno, 'C18.status', FILE, 'application', src(second)[:120], second.lineno,
-                  'HTML mode does not announce text/html before returning the page')
-        jd = [n for n in ast.walk(json_rets[0]) if isinstance(n, ast.Call) and src(n.func) == 'json.dumps']
-        rep.check(len(jd) == 1 and src(jd[0].args[0]) == 'results', 'C18.listing', FILE, 'application', src(json_rets[0].value)[:120], json_rets[0].lineno,
-                  'the JSON document is not json.dumps(results ...)')
+    jd = [n for n in ast.walk(json_rets[0]) if isinstance(n, ast.Call) and src(n.func) == 'json.dumps']
+    rep.check(len(jd) == 1 and src(jd[0].args[0]) == 'results', 'C18.listing', FILE, 'application', src(json_rets[0].value)[:120], json_rets[0].lineno,
+              'the JSON document is not json.dumps(results ...)')
     # ---- query access
     for n in ast.walk(app):
         if isinstance(n, ast.Subscript) and src(n.value) == 'environ' and isinstance(n.slice, ast.Constant):
